@@ -17,6 +17,18 @@ CHECKS = {
         note="Trusted: Lean kernel + {propext, Classical.choice, Quot.sound}; the hand-written model Model/Offset.lean corresponds to signals.rs "
              "only as far as the differential run shows; u32/usize widths are not modelled (indices are Nat), the u16 truncation of `elements` is (finding F18).",
     ),
+    "C04": dict(
+        technique="Lean 4 proof (pack/unpack and entry-layout round trips by induction, table facts by kernel evaluation) + differential store histories vs Spec.run",
+        text="Lean theorems: C04_pack_unpack (write_n_state then n_state_to_bit_string = id for every kind/width/value), C04_entry_roundtrip and "
+             "C04_one_bit_roundtrip (entry built by the loader decodes to the symbols written for every widest-kind x local-kind combination, both meta layouts), "
+             "C04_align_no_underflow, C04_leb_roundtrip, C04_char_faithful / C04_kind_independent_chars over tables regenerated from the code. "
+             "The executable Lean model of Encoder/SignalEncoder/Reader (Model/Store.lean) and the abstract Spec.run are compared with the real store "
+             "on generated histories covering every regime of the quantifier (widths, state orders, payload sizes around 32 bytes, 65535-multiples, splits).",
+        design_ref="DESIGN.md section 5 / C04",
+        note="Proved: per-value packing and per-entry layout (unbounded). Not proved, validated by the differential run only: the block/stream level "
+             "(LEB delta accumulation across blocks, offsets, compressed flag, append). lz4_flex is not modelled (compress = id in the model; "
+             "the compression decision is an arbitrary predicate). Trusted: Lean kernel, table translator vf/tables.py, harness, generators.",
+    ),
 }
 
 NOT_YET = "check not built yet in this round (machinery under construction; see DESIGN.md section 10 for the order of work)"
